@@ -1,3 +1,198 @@
+import Driver.Util
 import Driver.Loop
-/- placeholder: the C15 view has no executable model yet -/
-def main : IO Unit := Drv.runLoop fun _ => .atom "bad-op"
+import PMV.Model.Shaper
+import PMV.Model.ItemOps
+/- line-protocol handlers for the C15 view (Mathlib-free) -/
+namespace Drv.C15
+open PMV PMV.NpShape PMV.Shaper PMV.ItemOps Drv
+
+def clsOf : String → Option Cls
+  | "Qube" => some .qube | "Scalar" => some .scalar | "Boolean" => some .boolean | "Vector" => some .vector
+  | "Vector3" => some .vector3 | "Pair" => some .pair | "Matrix" => some .matrix | "Matrix3" => some .matrix3
+  | "Quaternion" => some .quaternion | _ => none
+
+def clsName : Cls → String
+  | .qube => "Qube" | .scalar => "Scalar" | .boolean => "Boolean" | .vector => "Vector" | .vector3 => "Vector3"
+  | .pair => "Pair" | .matrix => "Matrix" | .matrix3 => "Matrix3" | .quaternion => "Quaternion"
+
+def parseMaskFor (shape : Shape) : Sx → Option Mask
+  | .atom "T" => some (.all true)
+  | .atom "F" => some (.all false)
+  | x => (x.bools?).map fun l => .arr (Arr.ofFlat shape l.toArray)
+
+def parseQ0 (cls : Cls) (shape numer : Shape) (denom vals mask : Sx) : Option (Q0 Int) := do
+  let denom ← denom.nats?
+  let vals ← vals.ints?
+  let mask ← parseMaskFor shape mask
+  some ⟨cls, shape, numer, denom, Arr.ofFlat (shape ++ numer ++ denom) vals.toArray, mask⟩
+
+def parseQ : Sx → Option (Q Int)
+  | .list [.atom c, sh, nu, de, vs, m, .list ds] => do
+    let cls ← clsOf c
+    let shape ← sh.nats?
+    let numer ← nu.nats?
+    let base ← parseQ0 cls shape numer de vs m
+    let dcls := if cls = .boolean then Cls.scalar else cls
+    let derivs ← ds.mapM fun d => match d with
+      | .list [.atom k, dd, dv, dm] => (parseQ0 dcls shape numer dd dv dm).map fun q => (k, q)
+      | _ => none
+    some ⟨base, derivs⟩
+  | _ => none
+
+def cellSx (x : Option Int) : Sx := match x with
+  | some v => Sx.ofInt v
+  | none => .atom "x"
+
+/-- values (hidden ones as `x`) and expanded mask bits of one object, row-major -/
+def renderVals (q : Q0 Int) : Sx × Sx :=
+  let idx := indices q.shape
+  let items := indices q.item
+  let vals := idx.flatMap fun i =>
+    if q.mask.at i then items.map fun _ => Sx.atom "x"
+    else items.map fun k => Sx.ofInt (q.vals.get (i ++ k))
+  (.list vals, Sx.ofBools (idx.map q.mask.at))
+
+def insertSorted (x : String × Sx) : List (String × Sx) → List (String × Sx)
+  | [] => [x]
+  | y :: ys => if x.1 < y.1 then x :: y :: ys else y :: insertSorted x ys
+
+def renderQ (q : Q Int) : Sx :=
+  let (v, m) := renderVals q.base
+  let ds := q.derivs.map fun kd =>
+    let (dv, dm) := renderVals kd.2
+    (kd.1, Sx.list [.atom kd.1, Sx.ofNats kd.2.denom, dv, dm])
+  let ds := (ds.foldr insertSorted []).map (·.2)
+  .list [.atom (clsName q.base.cls), Sx.ofNats q.base.shape, Sx.ofNats q.base.numer, Sx.ofNats q.base.denom,
+         v, m, .list ds]
+
+def out (r : Except Err (Q Int)) : Sx := match r with
+  | .ok q => renderQ q
+  | .error e => .atom e.name
+
+def outTuple (r : Except Err (List (Q Int))) : Sx := match r with
+  | .ok qs => .list (.atom "tuple" :: qs.map renderQ)
+  | .error e => .atom e.name
+
+def rankOf : Sx → Option (Option Nat)
+  | .atom "none" => some none
+  | x => x.toNat?.map some
+
+def classesOf (x : Sx) : Option (List Cls) := do
+  let l ← x.toList?
+  l.mapM fun c => match c with
+    | .atom s => clsOf s
+    | _ => none
+
+def handle : List Sx → Sx
+  | [.atom "reshape", o, rec, sh] =>
+    match parseQ o, rec.toBool?, sh.ints? with
+    | some q, some r, some s => out (reshape q s r)
+    | _, _, _ => err "args"
+  | [.atom "flatten", o, rec] =>
+    match parseQ o, rec.toBool? with
+    | some q, some r => out (flatten q r)
+    | _, _ => err "args"
+  | [.atom "swap_axes", o, rec, a1, a2] =>
+    match parseQ o, rec.toBool?, a1.toInt?, a2.toInt? with
+    | some q, some r, some a1, some a2 => out (swapAxes q a1 a2 r)
+    | _, _, _, _ => err "args"
+  | [.atom "roll_axis", o, rec, ax, st, rk] =>
+    match parseQ o, rec.toBool?, ax.toInt?, st.toInt?, rankOf rk with
+    | some q, some r, some ax, some st, some rk => out (rollAxis q ax st r rk)
+    | _, _, _, _, _ => err "args"
+  | [.atom "move_axis", o, rec, src, dst, rk] =>
+    match parseQ o, rec.toBool?, src.ints?, dst.ints?, rankOf rk with
+    | some q, some r, some s, some d, some rk => out (moveAxis q s d r rk)
+    | _, _, _, _, _ => err "args"
+  | [.atom "broadcast_to", o, rec, sh] =>
+    match parseQ o, rec.toBool?, sh.ints? with
+    | some q, some r, some s => out (broadcastTo q s r)
+    | _, _, _ => err "args"
+  | [.atom "stack", rec, .list os] =>
+    match rec.toBool?, os.mapM parseQ with
+    | some r, some qs => out (stack 0 qs r)
+    | _, _ => err "args"
+  | [.atom "from_scalars", rec, cls, .list os] =>
+    match rec.toBool?, classesOf cls, os.mapM parseQ with
+    | some r, some cl, some qs => out (fromScalars 0 qs cl r)
+    | _, _, _ => err "args"
+  | [.atom "extract_numer", o, rec, ax, ix, cls] =>
+    match parseQ o, rec.toBool?, ax.toInt?, ix.toInt?, classesOf cls with
+    | some q, some r, some ax, some ix, some cl => out (extractNumer q ax ix cl r)
+    | _, _, _, _, _ => err "args"
+  | [.atom "extract_denom", o, ax, ix, cls] =>
+    match parseQ o, ax.toInt?, ix.toInt?, classesOf cls with
+    | some q, some ax, some ix, some cl => out (extractDenom q ax ix cl)
+    | _, _, _, _ => err "args"
+  | [.atom "extract_denoms", o] =>
+    match parseQ o with
+    | some q => outTuple (extractDenoms q)
+    | _ => err "args"
+  | [.atom "slice_numer", o, rec, ax, i1, i2, cls] =>
+    match parseQ o, rec.toBool?, ax.toInt?, i1.toInt?, i2.toInt?, classesOf cls with
+    | some q, some r, some ax, some i1, some i2, some cl => out (sliceNumer q ax i1 i2 cl r)
+    | _, _, _, _, _, _ => err "args"
+  | [.atom "transpose_numer", o, rec, a1, a2] =>
+    match parseQ o, rec.toBool?, a1.toInt?, a2.toInt? with
+    | some q, some r, some a1, some a2 => out (transposeNumer q a1 a2 r)
+    | _, _, _, _ => err "args"
+  | [.atom "transpose_denom", o, a1, a2] =>
+    match parseQ o, a1.toInt?, a2.toInt? with
+    | some q, some a1, some a2 => out (transposeDenom q a1 a2)
+    | _, _, _ => err "args"
+  | [.atom "reshape_numer", o, rec, sh, cls] =>
+    match parseQ o, rec.toBool?, sh.ints?, classesOf cls with
+    | some q, some r, some s, some cl => out (reshapeNumer q s cl r)
+    | _, _, _, _ => err "args"
+  | [.atom "flatten_numer", o, rec, cls] =>
+    match parseQ o, rec.toBool?, classesOf cls with
+    | some q, some r, some cl => out (flattenNumer q cl r)
+    | _, _, _ => err "args"
+  | [.atom "reshape_denom", o, sh] =>
+    match parseQ o, sh.ints? with
+    | some q, some s => out (reshapeDenom q s)
+    | _, _ => err "args"
+  | [.atom "flatten_denom", o] =>
+    match parseQ o with
+    | some q => out (flattenDenom q)
+    | _ => err "args"
+  | [.atom "join_items", o, cls] =>
+    match parseQ o, classesOf cls with
+    | some q, some cl => out (joinItems q cl)
+    | _, _ => err "args"
+  | [.atom "swap_items", o, cls] =>
+    match parseQ o, classesOf cls with
+    | some q, some cl => out (swapItems q cl)
+    | _, _ => err "args"
+  | [.atom "split_items", o, nr, cls] =>
+    match parseQ o, nr.toNat?, classesOf cls with
+    | some q, some nr, some cl => out (splitItems q nr cl)
+    | _, _, _ => err "args"
+  | [.atom "to_scalar", o, rec, ix] =>
+    match parseQ o, rec.toBool?, ix.toInt? with
+    | some q, some r, some ix => out (toScalar q ix r)
+    | _, _, _ => err "args"
+  | [.atom "to_scalars", o, rec] =>
+    match parseQ o, rec.toBool? with
+    | some q, some r => outTuple (toScalars q r)
+    | _, _ => err "args"
+  | [.atom "as_row", o, rec] =>
+    match parseQ o, rec.toBool? with
+    | some q, some r => out (asRow q r)
+    | _, _ => err "args"
+  | [.atom "as_column", o, rec] =>
+    match parseQ o, rec.toBool? with
+    | some q, some r => out (asColumn q r)
+    | _, _ => err "args"
+  | [.atom "as_diagonal", o, rec] =>
+    match parseQ o, rec.toBool? with
+    | some q, some r => out (asDiagonal 0 q r)
+    | _, _ => err "args"
+  | _ => err "c15-op"
+
+end Drv.C15
+
+def main : IO Unit := Drv.runLoop fun x =>
+  match x with
+  | .list (.atom "c15" :: rest) => Drv.C15.handle rest
+  | _ => .atom "bad-op"
